@@ -1,0 +1,68 @@
+// Licensed to the Apache Software Foundation (ASF) under one
+// or more contributor license agreements.  See the NOTICE file
+// distributed with this work for additional information
+// regarding copyright ownership.  The ASF licenses this file
+// to you under the Apache License, Version 2.0 (the
+// "License"); you may not use this file except in compliance
+// with the License.  You may obtain a copy of the License at
+//
+//   http://www.apache.org/licenses/LICENSE-2.0
+//
+// Unless required by applicable law or agreed to in writing,
+// software distributed under the License is distributed on an
+// "AS IS" BASIS, WITHOUT WARRANTIES OR CONDITIONS OF ANY
+// KIND, either express or implied.  See the License for the
+// specific language governing permissions and limitations
+// under the License.
+
+//! Seams for deterministic simulation (only compiled with the `verif-hooks` feature).
+//!
+//! Both hooks are thread-local and unset by default, in which case the library behaves exactly as
+//! it does without the feature.
+
+use crate::schema::Name;
+use std::cell::RefCell;
+
+type PickPending = Box<dyn FnMut(&[String]) -> usize>;
+type NextMarker = Box<dyn FnMut() -> [u8; 16]>;
+
+thread_local! {
+    static PICK_PENDING: RefCell<Option<PickPending>> = const { RefCell::new(None) };
+    static NEXT_MARKER: RefCell<Option<NextMarker>> = const { RefCell::new(None) };
+}
+
+/// Install (or remove) the callback choosing which pending input schema is parsed next.
+///
+/// The callback receives the sorted full names of the pending inputs and returns an index into them
+/// (taken modulo the number of pending inputs).
+pub fn set_pick_pending(f: Option<PickPending>) {
+    PICK_PENDING.with(|c| *c.borrow_mut() = f);
+}
+
+/// Install (or remove) the source of sync markers used where the library would draw a random one.
+pub fn set_next_marker(f: Option<NextMarker>) {
+    NEXT_MARKER.with(|c| *c.borrow_mut() = f);
+}
+
+pub(crate) fn pick_pending<'a, V>(
+    pending: &'a std::collections::HashMap<Name, V>,
+    default: Name,
+) -> Name {
+    PICK_PENDING.with(|c| {
+        let mut guard = c.borrow_mut();
+        match guard.as_mut() {
+            None => default,
+            Some(f) => {
+                let mut keys: Vec<&'a Name> = pending.keys().collect();
+                keys.sort_by_key(|n| n.fullname(None));
+                let names: Vec<String> = keys.iter().map(|n| n.fullname(None)).collect();
+                let i = f(&names) % keys.len();
+                keys[i].clone()
+            }
+        }
+    })
+}
+
+pub(crate) fn next_marker() -> Option<[u8; 16]> {
+    NEXT_MARKER.with(|c| c.borrow_mut().as_mut().map(|f| f()))
+}
